@@ -325,7 +325,13 @@ pub fn gen_len(cfg: &Cfg, max_len: usize) -> usize {
                 (base + t.draw(3) as usize).saturating_sub(1)
             }
         };
-        n.min(cap.max(16))
+        let n = n.min(cap.max(16));
+        // fixed-size chunking: end exactly on a chunk boundary in a third of the runs
+        if cfg.algo == Algo::Fixed && n >= cfg.max && t.chance(1, 3) {
+            n - n % cfg.max
+        } else {
+            n
+        }
     })
 }
 
